@@ -77,6 +77,9 @@ def run(ctx, rep):
             if name == 'extend' and any(t in (c['arg_tys'][0] if c['arg_tys'] else '') for t in ORDERED_TARGETS):
                 rep.ok('D1', key, f"extends {c['arg_tys'][0][:50]} (order-insensitive container)", site)
                 continue
+            if name in ('collect', 'collect_vec', 'from_iter') and sorted_before_use(prog, b, c):
+                rep.ok('D1', key, 'collected into a Vec that is sorted before any other use (MIR: the sort dominates every other use)', site)
+                continue
             ent = lookup(table, root['id'], name, norm(c['snippet']))
             if ent is None:
                 rep.fail('D1', key, f"unclassified consumer of hash-iteration order: `{norm(c['snippet'])[:110]}` ({c['callee'][:60]}) in {root['id']} — iteration order of a HashMap/HashSet differs between processes (random seed); unless the result is order-insensitive it reaches the output", site)
@@ -91,6 +94,55 @@ def run(ctx, rep):
             d45(ctx, rep, prog)
     rep.extra['evaluations'] = total
     rep.extra['feature_sets'] = fsets
+
+
+def sorted_before_use(prog, b, c):
+    """The Vec produced by this consumer (its call destination) is handed to a slice sort before anything else reads it:
+    some `sort*` call on (a reborrow of) the destination dominates every other call that receives it."""
+    d = str(c.get('dest') or '').split(' ')[0]
+    if not d.startswith('_'):
+        return False
+    from . import c08
+    # `let v: Vec<_> = ...collect()` / `...collect::<Result<..>>()?` are not followed: only a plain Vec destination
+    if 'Vec<' not in b['locals'].get(d, ''):
+        return False
+    flow = c08.moved_set(b, d)
+    refs = set()
+    changed = True
+    while changed:
+        changed = False
+        for blk in b['blocks']:
+            for st in blk['stmts']:
+                m = re.match(r'^(_\d+) = &(?:mut )?(?:\(\*)?(_\d+)\)?$', st)
+                if m and (m.group(2) in flow or m.group(2) in refs) and m.group(1) not in refs:
+                    refs.add(m.group(1))
+                    changed = True
+                m = re.match(r'^(_\d+) = (?:move|copy) (_\d+)$', st)
+                if m and m.group(2) in refs and m.group(1) not in refs:
+                    refs.add(m.group(1))
+                    changed = True
+        for x in b['calls']:
+            if re.search(r'(DerefMut>::deref_mut|Deref>::deref|as_mut_slice|as_slice|AsMut.*::as_mut|IndexMut.*::index_mut|BorrowMut.*::borrow_mut)$', x['callee']) and any(re.search(rf'\b(move|copy) {r}\b', a) for a in x['args'] for r in refs):
+                dd = str(x.get('dest') or '').split(' ')[0]
+                if dd.startswith('_') and dd not in refs:
+                    refs.add(dd)
+                    changed = True
+
+    def takes(x):
+        return any(re.search(rf'\b(?:move|copy) {r}\b', a) for a in x['args'] for r in (flow | refs))
+    uses = [x for x in b['calls'] if x is not c and takes(x)]
+    sorts = [x for x in uses if re.search(r'slice::<impl \[T\]>::sort(_unstable)?(_by|_by_key|_by_cached_key)?$', x['callee'])]
+    helpers = [x for x in uses if re.search(r'(DerefMut>::deref_mut|Deref>::deref|as_mut_slice|as_slice)$', x['callee'])]
+    if not sorts:
+        return False
+    # a plain `sort()` (total order of the elements) or sort_unstable(); keyed sorts may tie → left to the table
+    s0 = [x for x in sorts if re.search(r'::sort(_unstable)?$', x['callee'])]
+    if not s0:
+        return False
+    first = s0[0]
+    others = [x for x in uses if x not in sorts and x not in helpers]
+    pre = [x for x in helpers if not prog.dominates(b, x['bb'], first['bb'])]
+    return all(prog.dominates(b, first['bb'], x['bb']) and x['bb'] != first['bb'] for x in others) and not any(not prog.dominates(b, first['bb'], x['bb']) for x in pre if False)
 
 
 def lookup(table, fn, name, snippet):
